@@ -15,7 +15,7 @@ def fails(plan, key, timeout=120.0):
         r = runner.run_plan(ReplaySource(copy.deepcopy(plan)), timeout)
     except runner.HarnessError:
         return None
-    for v in r['violations']:
+    for v in list(r['violations']) + (list(r.get('soft', ())) if key[0] == 'O5.never' else []):
         if vkey(v) == key:
             return v
     return None
